@@ -12,7 +12,7 @@ import vlib, hlgen
 from vlib import hexs, unhex, hexlist
 
 PROP = "C10"
-NAMES = [b"A", b"B", b"C", b"D", b"grp", b"hosts.txt"]
+NAMES = [b"A", b"B", b"A1", b"C", b"D", b"grp", b"hosts.txt", b"grp2"]     # A and A1, grp and grp2: one path is a prefix of the other
 PATH_MAX = 4096
 
 # =====================================================================================================================
